@@ -21,6 +21,7 @@ def navigateType (t : Ty) (k : Key) : Option (Option Ty) :=
   | .bitvector n, .idx i => if i ≥ n then none else some (some .bool)
   | .bytevector n, .idx i => if i ≥ n then none else some (some (.uint 1))
   | .bytelist lim, .idx i => if i ≥ lim then none else some (some (.uint 1))
+  | .bytelist _, .len => some (some (.uint 32))
   | .union hasNone opts, .idx i =>
     if i ≥ optCount hasNone opts then none else some (Spec.optType hasNone opts i)
   | .union _ _, .sel => some (some (.uint 32))
@@ -42,6 +43,7 @@ def keyToStaticGindex (t : Ty) (k : Key) : Option Nat :=
   | .bitvector n, .idx i => if i ≥ n then none else toGindex (i / 256) (treeDepth (.bitvector n))
   | .bytevector n, .idx i => if i ≥ n then none else toGindex (i / 32) (treeDepth (.bytevector n))
   | .bytelist lim, .idx i => if i ≥ lim then none else toGindex (i / 32) (treeDepth (.bytelist lim))
+  | .bytelist _, .len => some 3
   | .union hasNone opts, .idx i => if i ≥ optCount hasNone opts then none else some 2
   | .union _ _, .sel => some 3
   | _, _ => none
